@@ -614,9 +614,10 @@ def run_clump(spec, acc):
                 plists = elements[lo:lo + len(els)]
                 cause, under = oversize_cause(cx, M, plists, part, len(raw))
                 if cause == 'element-prefix-not-counted' and len(dgrams) == 1 \
-                        and 4 * len(els) < len(raw) - M.UDP_MAX:
+                        and 4 * len(els) + under < len(raw) - M.UDP_MAX:
                     # nothing was split although the whole does not fit, and
-                    # the element prefixes cannot account for the excess
+                    # neither the element prefixes nor under-predicted
+                    # element sizes can account for the excess
                     cause = 'bundle-not-split'
                 w = {'case': i, 'via': via, 'family': family,
                      'datagram_index': k, 'bytes': len(raw),
